@@ -632,3 +632,37 @@ Fixpoint quiet (run1 : stmt -> store -> store -> Prop) (p : list ustmt) (s : sto
   | UCheck c _ :: r => evalB (env_st s) c = Some false /\ quiet run1 r s
   | UStmt st :: r => forall s1, run1 st s s1 -> quiet run1 r s1
   end.
+
+(** ** Which bound becomes the new extent
+    [fix_subroutine] collects, per fully checked dummy [a] and dimension [d], the LAST call (conditionals in source
+    order) that has [a] and the literal [d] among its arguments, takes the conditional holding it, and in that
+    conditional the FIRST [<]/[>] comparison that mentions [a] and the literal [d]; the side without [ubound] is the
+    extent.  A comparison is abstracted to (array, dimension, bound text); names are case-insensitive. *)
+Record ubcmp := { uc_arr : string; uc_dim : nat; uc_bound : string }.
+
+Definition ub_match (a : string) (d : nat) (c : ubcmp) : bool :=
+  String.eqb (lower (uc_arr c)) (lower a) && Nat.eqb (uc_dim c) d.
+
+Definition ub_cond (conds : list (list ubcmp)) (a : string) (d : nat) : option (list ubcmp) :=
+  last_opt (filter (existsb (ub_match a d)) conds).
+
+Definition ub_pick (conds : list (list ubcmp)) (a : string) (d : nat) : option string :=
+  match ub_cond conds a d with
+  | Some cs => match find (ub_match a d) cs with Some c => Some (uc_bound c) | None => None end
+  | None => None
+  end.
+
+Definition ub_shape (conds : list (list ubcmp)) (a : string) (rank : nat) : list (option string) :=
+  map (ub_pick conds a) (seq 1 rank).
+
+Fixpoint ostr_eqb (x y : list (option string)) : bool :=
+  match x, y with
+  | [], [] => true
+  | Some p :: x', Some q :: y' => String.eqb p q && ostr_eqb x' y'
+  | None :: x', None :: y' => ostr_eqb x' y'
+  | _, _ => false
+  end.
+
+(** the declared extents of the rewritten dummies (blank-free, lower case) are the selected bounds *)
+Definition chk_ub_shapes (conds : list (list ubcmp)) (decl : list (prod string (list string))) : bool :=
+  forallb (fun ad => ostr_eqb (ub_shape conds (fst ad) (List.length (snd ad))) (map Some (snd ad))) decl.
